@@ -295,7 +295,9 @@ func colourFrames(colours func(yield func(r, g, b int)), width int) {
 
 // ---- (c) width method ---------------------------------------------------------------------
 
-var widthAlphabet = []string{"a", "é", "e\u0301", "世", "😀", "👩‍🚀", "🇺🇸", "❤️", "​", "한", "ｱ"}
+var widthAlphabet = []string{"a", "é", "e\u0301", "世", "😀", "👩‍🚀", "🇺🇸", "❤️", "​", "한", "ｱ",
+	// clusters with two and three joiners (a terminal that does not join them shows every part)
+	"\U0001F468\u200d\U0001F469\u200d\U0001F467", "\U0001F468\u200d\U0001F469\u200d\U0001F467\u200d\U0001F466", "\U0001F469\u200d\u2764\ufe0f\u200d\U0001F468"}
 
 func widthCases() {
 	for _, ver := range []refterm.Version{refterm.VersionNone, refterm.VersionKitty, refterm.VersionTmux34, refterm.VersionOther} {
